@@ -119,6 +119,8 @@ class CuckooDriver:
         trip over it: with case["verify_mask"] the comparison with the model runs only at some steps (always at the end)"""
         vm = self.case.get("verify_mask", 0)
         self.nv = getattr(self, "nv", -1) + 1
+        if getattr(self, "_mute", False) and not force:
+            return True
         if vm and not force and not getattr(self, "_final", False) and not (vm >> (self.nv % 8)) & 1:
             self.feats.add("steps_without_queries")
             return True
@@ -215,6 +217,25 @@ class CuckooDriver:
             kind, op = "expand", ["expand"]
         if kind == "expand" and self.capacity * self.case["rate"] > 1500:
             kind, op = "add", ["add", len(self.ctx.trace)]  # keep tables small: no further manual growth
+        if kind == "hkh":
+            # hit, kick, hit: a stored key is looked up, one to three other keys are added (their eviction chains may relocate its
+            # entry) with NO look-up in between, then the first key is added again / removed: what the filter remembered from the
+            # look-up is stale by then
+            present = [k for k in self.pool if self.model.get(self.fp[k], 0) > 0]
+            if not present:
+                return self.step(["add", op[1]])
+            x = present[op[1] % len(present)]
+            r = ctx.call(self.noexc, o.check, x)
+            if self._o("member"):
+                ctx.check(self._o("member"), bool(r), lambda: f"stored key {x!r} is reported absent")
+            self._mute = True
+            try:
+                for j in range(1 + op[2] % 3):
+                    self.step(["add", op[2] + j])
+            finally:
+                self._mute = False
+            self.feats.add("hit_kick_hit")
+            return self.step(["remove" if op[2] % 2 else "add", self.pool.index(x)])
         if kind == "add":
             k = self.pool[op[1] % len(self.pool)]
             before = dict(self.model)
@@ -386,7 +407,7 @@ def case_strategy(tier, classes=("cuckoo", "counting"), allow_reload=False, max_
         cls = draw(st.sampled_from(classes))
         bs = draw(st.integers(1, 3))
         swaps = draw(st.integers(1, 6))
-        ops = [st.tuples(st.just("add"), ki)] * 8 + [st.tuples(st.just("remove"), ki)] * 2
+        ops = [st.tuples(st.just("add"), ki)] * 8 + [st.tuples(st.just("remove"), ki)] * 2 + [st.tuples(st.just("hkh"), ki, st.integers(0, 47))]
         if draw(st.integers(0, 3)) == 0:
             ops.append(st.tuples(st.just("refused"), st.integers(0, 3)))
         if cls == "counting" and draw(st.integers(0, 3)) == 0:
